@@ -13,6 +13,20 @@ use inputlayer::storage::StorageError;
 use inputlayer::StorageEngine;
 use std::sync::{Arc, Mutex};
 
+/// wire form of a name: every UTF-8 byte other than [A-Za-z0-9._:-] and `_` is written `^xx` (hex);
+/// the Lean model works on the byte string
+pub fn enc(name: &str) -> String {
+    name.bytes().map(|b| if b.is_ascii_alphanumeric() || b"._-:".contains(&b) || b == b'_' { (b as char).to_string() } else { format!("^{:02x}", b) }).collect()
+}
+pub fn dec(w: &str) -> String {
+    let b = w.as_bytes(); let mut out = vec![]; let mut i = 0;
+    while i < b.len() {
+        if b[i] == b'^' && i + 3 <= b.len() && w.is_char_boundary(i + 1) && w.is_char_boundary(i + 3) { if let Ok(x) = u8::from_str_radix(&w[i + 1..i + 3], 16) { out.push(x); i += 3; continue; } }
+        out.push(b[i]); i += 1;
+    }
+    String::from_utf8_lossy(&out).into_owned()
+}
+
 fn err_code(e: &StorageError) -> String {
     match e {
         StorageError::KnowledgeGraphNotFound(_) => "nf".into(),
@@ -27,22 +41,24 @@ fn err_code(e: &StorageError) -> String {
 pub fn observe(se: &StorageEngine) -> String {
     let mut out = vec![];
     for kg in se.list_knowledge_graphs() {
-        let mut rels: Vec<String> = vec![];
+        let mut rels: Vec<(String, String)> = vec![];
         if let Ok(snap) = se.get_snapshot_for(&kg) {
             let mut names: Vec<&String> = snap.input_tuples.keys().collect(); names.sort();
             for r in names {
                 let mut ids: Vec<i64> = snap.input_tuples[r].iter().map(id_of).collect(); ids.sort();
                 if ids.is_empty() { continue; }
-                rels.push(format!("{}={}", r, ids.iter().map(|x| x.to_string()).collect::<Vec<_>>().join(".")));
+                rels.push((r.clone(), format!("{}={}", enc(r), ids.iter().map(|x| x.to_string()).collect::<Vec<_>>().join("."))));
             }
         }
-        out.push(format!("{}{{{}}}", kg, rels.join(",")));
+        rels.sort();
+        out.push(format!("{}{{{}}}", enc(&kg), rels.iter().map(|x| x.1.clone()).collect::<Vec<_>>().join(",")));
     }
     if out.is_empty() { "-".into() } else { out.join(" ") }
 }
 
 pub fn apply(se: &StorageEngine, item: &str) -> String {
-    let p: Vec<&str> = item.split(',').collect();
+    let pd: Vec<String> = item.split(',').map(dec).collect();
+    let p: Vec<&str> = pd.iter().map(|x| x.as_str()).collect();
     match (p[0], p.len()) {
         ("create", 2) => match se.create_knowledge_graph(p[1]) { Ok(()) => "ok".into(), Err(e) => err_code(&e) },
         ("drop", 2) => match se.drop_knowledge_graph(p[1]) { Ok(()) => "ok".into(), Err(e) => err_code(&e) },
@@ -191,8 +207,109 @@ fn random_sched(ctx: &mut Ctx, progs: &[Vec<&str>], allow_blocked: bool) -> Vec<
     out
 }
 
+/// every printable ASCII punctuation character
+pub const PUNCT: &str = "!\"#$%&'()*+,-./:;<=>?@[\\]^_`{|}~ ";
+
+/// sibling families of names around one punctuation character `c`: names that differ only after it,
+/// with it leading / trailing / doubled, plus the bare stem
+pub fn family(stem: &str, c: char) -> Vec<String> {
+    vec![stem.to_string(), format!("{stem}{c}0"), format!("{stem}{c}1"), format!("{stem}{c}"), format!("{c}{stem}"), format!("{stem}{c}0{c}1"), format!("{stem}{c}{c}0")]
+}
+
+/// KG-name alphabet: families for every punctuation character, case variants, unicode, long names
+pub fn kg_alphabet() -> Vec<String> {
+    let mut v: Vec<String> = vec![];
+    for c in PUNCT.chars() { v.extend(family("v1", c)); }
+    for n in ["Kg", "kg", "KG", "\u{e9}", "e\u{301}", "\u{540d}\u{524d}", "\u{fc}ber", "a.b.c", ".hidden", "v1.0.1", "con", "nul.json", "x.json", "x.json.tmp"] { v.push(n.to_string()); }
+    v.push("a".repeat(128)); v.push(format!("{}.0", "b".repeat(126))); v.push(format!("{}.1", "b".repeat(126)));
+    v.sort(); v.dedup(); v
+}
+pub fn rel_alphabet() -> Vec<String> {
+    let mut v: Vec<String> = vec!["r".to_string()];
+    for c in PUNCT.chars() { v.push(format!("r{c}0")); v.push(format!("r{c}1")); }
+    v.push("R".into()); v.push("r.json".into());
+    v.sort(); v.dedup(); v
+}
+
+/// T-gen: the file name the *current* code gives to a shard's metadata, observed by creating the shard
+/// through `FilePersist::ensure_shard` in a fresh directory, for every shard name `kg:rel` of the alphabet
+/// (KG names the API rejects are skipped). Printed as a Lean table for Props/C17.
+fn tgen() -> String {
+    use inputlayer::storage::persist::{FilePersist, PersistBackend, PersistConfig};
+    let lit = |s: &str| -> String { format!("[{}]", s.bytes().map(|b| b.to_string()).collect::<Vec<_>>().join(", ")) };
+    let mut rows = vec![];
+    let probe = tmpdir();
+    let se = StorageEngine::new(cfg(&probe.path().join("probe"))).unwrap();
+    let kgs: Vec<String> = kg_alphabet().into_iter().filter(|k| se.create_knowledge_graph(k).is_ok()).collect();
+    drop(se);
+    let rels = rel_alphabet();
+    for (i, k) in kgs.iter().enumerate() {
+        // all relations for the first few KG names of each family would be quadratic: pair every KG name with
+        // the plain relation and with the relation family of one rotating punctuation character
+        let mut rs: Vec<&String> = vec![&rels[0]];
+        rs.push(&rels[(2 * i + 1) % rels.len()]); rs.push(&rels[(2 * i + 2) % rels.len()]);
+        for r in rs {
+            let shard = format!("{k}:{r}");
+            let d = tmpdir();
+            let p = match FilePersist::new(PersistConfig { path: d.path().join("p"), buffer_size: 10000, durability_mode: inputlayer::DurabilityMode::Immediate, max_wal_size_bytes: 0 }) { Ok(p) => p, Err(_) => continue };
+            if p.ensure_shard(&shard).is_err() { rows.push(format!("  ({}, [])", lit(&shard))); continue; }
+            let mut files: Vec<String> = std::fs::read_dir(d.path().join("p/shards")).map(|rd| rd.flatten().map(|e| e.file_name().to_string_lossy().into_owned()).collect()).unwrap_or_default();
+            files.sort();
+            rows.push(format!("  ({}, {})", lit(&shard), lit(&files.join("|"))));
+        }
+    }
+    // chunks of 40 rows keep Lean's elaborator away from its recursion limit
+    let mut out = String::from("-- generated by `ilvh gen C17` from the current /repo — do not edit\n-- (shard name, metadata file name created by FilePersist::ensure_shard), both as UTF-8 byte lists\nnamespace ILV.Gen.C17\n");
+    let chunks: Vec<&[String]> = rows.chunks(40).collect();
+    for (i, c) in chunks.iter().enumerate() { out.push_str(&format!("def t{} : List (List Nat × List Nat) := [\n{}\n]\n", i, c.join(",\n"))); }
+    out.push_str(&format!("def fileTable : List (List Nat × List Nat) := {}\nend ILV.Gen.C17\n", if chunks.is_empty() { "[]".to_string() } else { (0..chunks.len()).map(|i| format!("t{i}")).collect::<Vec<_>>().join(" ++ ") }));
+    out
+}
+
+/// directed sibling histories: 2-3 sibling KG names of one family, each with two relations (one plain,
+/// one from the same family), all saved, restart, one sibling dropped, restart; more inserts, save, restart
+fn sibling_history(ctx: &mut Ctx, kgs: &[String], rels: &[String]) -> String {
+    let mut h = Hist::new();
+    let ek: Vec<String> = kgs.iter().map(|k| enc(k)).collect();
+    let er: Vec<String> = rels.iter().map(|r| enc(r)).collect();
+    for k in &ek { h.create(k); }
+    for k in &ek { for r in &er { h.ins(k, r); if ctx.chance(1, 3) { h.ins(k, r); } } }
+    h.save_all(ctx); h.push("restart".into());
+    let victim = ek[ctx.below(ek.len())].clone();
+    h.drop(&victim);
+    if ctx.chance(1, 2) { h.save_all(ctx); }
+    h.push("restart".into());
+    for k in &ek { if *k != victim { h.ins(k, &er[0]); } }
+    if ctx.chance(1, 2) { h.create(&victim); h.ins(&victim, &er[ctx.below(er.len())]); }
+    h.save_all(ctx); h.push("restart".into());
+    h.line()
+}
+
 pub fn gen(ctx: &mut Ctx) -> Vec<String> {
     let mut out = vec![];
+    // (0) systematic name alphabet: for every printable ASCII punctuation character the sibling family
+    //     {v1, v1c0, v1c1, v1c, cv1, v1c0c1, v1cc0}: all accepted members as siblings in one history (pairs and
+    //     triples), relations {r, rc0, rc1}; plus case variants, unicode, long names, dotted file-like names
+    for c in PUNCT.chars() {
+        let fam: Vec<String> = family("v1", c).into_iter().filter(|k| !k.is_empty() && !k.contains('/') && !k.contains('\\') && !k.contains("..") && k != ".").collect();
+        let rels = vec!["r".to_string(), format!("r{c}0"), format!("r{c}1")];
+        for variant in 0..ctx.budget(2, 6) {
+            if fam.len() < 2 { continue; }
+            let mut pick = fam.clone();
+            for i in (1..pick.len()).rev() { let j = ctx.below(i + 1); pick.swap(i, j); }
+            pick.truncate(if variant % 2 == 0 { 2 } else { 3 });
+            let rsel: Vec<String> = if variant % 2 == 0 { rels[..2].to_vec() } else { vec![rels[1].clone(), rels[2].clone()] };
+            out.push(sibling_history(ctx, &pick, &rsel)); ctx.count("seq_sibling_family");
+        }
+    }
+    let extra: Vec<Vec<&str>> = vec![vec!["Kg", "kg", "KG"], vec!["\u{e9}", "e\u{301}"], vec!["\u{540d}\u{524d}", "\u{fc}ber", "v1"], vec!["a.b.c", "a.b", "a"],
+        vec![".hidden", "hidden"], vec!["v1.0.1", "v1.0", "v1"], vec!["x.json", "x", "x.json.tmp"], vec!["con", "nul.json"]];
+    for fam in &extra {
+        let ks: Vec<String> = fam.iter().map(|x| x.to_string()).collect();
+        for rs in [vec!["r".to_string(), "r.0".to_string()], vec!["R".to_string(), "r".to_string()]] { out.push(sibling_history(ctx, &ks, &rs)); ctx.count("seq_sibling_extra"); }
+    }
+    { let ks = vec![format!("{}.0", "b".repeat(126)), format!("{}.1", "b".repeat(126)), "a".repeat(128)];
+      out.push(sibling_history(ctx, &ks, &["r".to_string(), "r.1".to_string()])); ctx.count("seq_sibling_extra"); }
     // (1) sequential histories, plain names
     for _ in 0..ctx.budget(250, 4000) { let len = 4 + ctx.below(9); let sv = ctx.chance(1, 2); out.push(random_history(ctx, &["a", "b", "c"], &["r", "s"], len, sv)); ctx.count("seq_plain"); }
     // (2) names whose shard files collide:  a_b:c / a:b_c,  k:p_q / k_p:q   (all KGs are saved before a restart)
@@ -228,6 +345,7 @@ pub fn gen(ctx: &mut Ctx) -> Vec<String> {
     // (5) name validation
     let long128 = "a".repeat(128); let long129 = "a".repeat(129);
     for n in ["", ".", "..", "a..b", "a/b", "a\\b", long128.as_str(), long129.as_str(), "a.b", "A", "a-b"] {
+        let n = enc(n);
         out.push(format!("c17.h | create,{n} ; ins,{n},r,1 ; restart ; drop,{n} ; restart")); ctx.count("seq_name_validation");
     }
     // (6) scheduled: insert / delete / create racing with drop (+ re-create) of the same KG, then restart
@@ -252,4 +370,4 @@ pub fn gen(ctx: &mut Ctx) -> Vec<String> {
     }
     out
 }
-pub const TGEN: Option<fn() -> String> = None;
+pub const TGEN: Option<fn() -> String> = Some(tgen);
